@@ -45,6 +45,9 @@ CHECKS = {
  "C11": ("Bounded exhaustive exploration: (a) every labelled dependency digraph (self-loops included) on 1-3 containers (quick; thorough: 4), every assignment of {constant, structure} to the containers, edges realised as constant-in-initialiser, named array length, member of structure type, size-of in a constant, and (up to 3 containers) pointer-typed members that must not count, under EVERY permutation of the declarations: acyclic <=> accepted, a cycle is rejected with E413/E415/E416, and all permutations give the same verdict; (b) every pair of declaration kinds with equal names, duplicate members and parameters (E421, E423-E426); (c) 32 type terms x 9 positions (variable, constant, parameter, struct member, word member, return type, extern parameter, extern return type, size-of operand) in four declaration orders against the documented legality rules (E350-E359), undocumented cells judged for order-independence and crashes only; (d) every word8..word128 with up to three members from 12 member types against the layout size (E380 when larger than declared).",
          "Trusted: the graph model and the documented legality table in checks/c11.rs. Which of the three cycle codes is reported, and whether additional codes accompany it, is not judged (the property asks for rejection with a cycle code). Execution-level order independence (identical behaviour) is covered for the programs of C01/C12 only.",
          "explicit-state enumeration of all dependency graphs of a small scope x all permutations (metamorphic order-independence oracle) plus a graph-cycle reference model", "5 (C11)"),
+ "C09": ("Complete enumeration of the finite literal matrix, identical in both tiers: 11 integer types x {declared type with unsuffixed literal, untyped declaration with suffixed literal} x 18 boundary magnitudes (0, 1, max, max+1, |min|, |min|+1, 2^32-1..2^32+1, 2^64-1, 2^64, 2^127-1, 2^127, 2^128-1, ...) x 12 spellings (decimal, hex lower/upper, binary, underscores in every position, leading zeros) x 3 signs = 8 000 literals, each compiled and executed (lli), its printed run-time value compared with arbitrary-precision arithmetic and the truncation lint L1142 required exactly for out-of-range literals; 60 over-long or mis-suffixed literals against E140/E141; every byte value as \\xHH, every printable ASCII character raw, every simple escape, unicode escapes at the UTF-8 length boundaries and raw multi-byte characters in string and character position, adjacent-literal concatenation across 5 separators, with the bytes seen at run time compared with the reference decoding; 100 malformed quoted literals against E110/E160-E163.",
+         "Trusted: lli-14 and print!/format! for observing values (C01 cross-checks the printing of every type); the reference decoder model/reflex.rs. Whether a minus before a hexadecimal/binary minimum belongs to the literal is undocumented and not judged for the lint.",
+         "complete enumeration of a finite input matrix, each case executed and compared with a reference model", "5 (C09)"),
 }
 
 NOT_YET = {}
